@@ -98,8 +98,9 @@ example : withinLimit (run (init 1 [1, 2])
 
 /-! ### the evidence store's cache layer (relays one at a time, several sessions) -/
 
-/-- The LRU+DB layer **is observable** in the code as it is: `GetWithoutLock` adds a value read
-from the DB to a full cache with a bare `Cache.Add`, evicting an entry that was never flushed.
+/-- Historical (before fix 534ec75; `fixedGet = false`): the LRU+DB layer **was observable** —
+`GetWithoutLock` added a value read from the DB to a full cache with a bare `Cache.Add`, evicting an
+entry that was never flushed.
 Capacity 1, relays strictly one at a time: session 3's answered relay disappears when session 1
 is read back from the DB, and its replay is answered again (the plain map rejects it). -/
 theorem eviction_is_observable :
@@ -108,7 +109,8 @@ theorem eviction_is_observable :
     (SerialCache.rrun 2 SerialCache.rinit [.relay 1 0, .relay 3 0, .relay 1 0, .relay 3 0]).2
       = [.ok, .ok, .dup37, .dup37] := by decide
 
-/-- **With the repaired read path the cache is unobservable**: for every positive capacity, every
+/-- **The cache is unobservable** in the code as it is now (fix 534ec75: DB reads enter the cache
+through `SetWithoutLockAndSealCheck`; `fixedGet = true`): for every positive capacity, every
 allowance and every sequence of relays, iterator openings and seals, every answer equals the
 plain map's answer and what is stored under every key is what the plain map holds — capacity,
 flushes and evictions cannot be seen. -/
